@@ -523,10 +523,10 @@ Proof.
   apply IH. apply api_nested_P. exact HP.
 Qed.
 
-Lemma after_read_P r : P (fst r) -> P (fst (after_read c nested r)).
+Lemma after_read_P id0 r : P (fst r) -> P (fst (after_read c nested id0 r)).
 Proof.
   destruct r as [s [rc|]]; cbn [fst after_read]; intros HP; [|exact HP].
-  destruct (rc >? 0); [|exact HP]. destruct (sock s); [|exact HP].
+  destruct (rc >? 0); [|exact HP]. destruct (sock s) as [x|]; [|exact HP]. destruct (x =? id0); [|exact HP].
   pose proof (loop_rc_handle_P rc s HP) as H. destruct (loop_rc_handle c nested rc s). exact H.
 Qed.
 
